@@ -1,0 +1,109 @@
+//go:build verif
+
+package replication
+
+// Contracts for GTID events and GTID sets (properties C18, C19).
+
+import (
+	"github.com/Breeze0806/gobinlog/internal/vspec"
+)
+
+// ---- MariaDB GTID event: 8 bytes sequence, 4 bytes domain, 1 byte flags2; server id from the common header ----
+
+func vc_mariadbBinlogEvent_GTID_requires(ev mariadbBinlogEvent, f BinlogFormat) bool {
+	return specValidFormat(f) && len(ev.binlogEvent) >= int(f.HeaderLength)+13
+}
+
+func vc_mariadbBinlogEvent_GTID_ensures_fields(ev mariadbBinlogEvent, f BinlogFormat, out GTID, begin bool, err error) bool {
+	b := []byte(ev.binlogEvent)
+	h := int(f.HeaderLength)
+	g, ok := out.(MariadbGTID)
+	return err == nil && ok &&
+		g.Sequence == specLE64(b, h) && g.Domain == specLE32(b, h+8) && g.Server == specLE32(b, 5) &&
+		begin == (b[h+12]&1 == 0) // FL_STANDALONE (bit 0) clear: the event also begins a transaction
+}
+
+// ---- MySQL 5.6 GTID event: 1 byte flags, 16 bytes server UUID, 8 bytes sequence number ----
+
+func vc_mysql56BinlogEvent_GTID_requires(ev mysql56BinlogEvent, f BinlogFormat) bool {
+	return specValidFormat(f) && len(ev.binlogEvent) >= int(f.HeaderLength)+25
+}
+
+func specSIDIs(sid SID, b []byte, at int) bool {
+	return sid[0] == b[at] && sid[1] == b[at+1] && sid[2] == b[at+2] && sid[3] == b[at+3] &&
+		sid[4] == b[at+4] && sid[5] == b[at+5] && sid[6] == b[at+6] && sid[7] == b[at+7] &&
+		sid[8] == b[at+8] && sid[9] == b[at+9] && sid[10] == b[at+10] && sid[11] == b[at+11] &&
+		sid[12] == b[at+12] && sid[13] == b[at+13] && sid[14] == b[at+14] && sid[15] == b[at+15]
+}
+
+func vc_mysql56BinlogEvent_GTID_ensures_fields(ev mysql56BinlogEvent, f BinlogFormat, out GTID, begin bool, err error) bool {
+	b := []byte(ev.binlogEvent)
+	h := int(f.HeaderLength)
+	g, ok := out.(Mysql56GTID)
+	return err == nil && ok && !begin && uint64(g.Sequence) == specLE64(b, h+17) && specSIDIs(g.Server, b, h+1)
+}
+
+// ---- MariaDB GTID sets: at most one position per replication domain ----
+
+// no two entries share a domain
+func specMariaWellFormed(s MariadbGTIDSet) bool {
+	return vspec.Forall(0, len(s), func(i int) bool {
+		return vspec.Forall(0, i, func(j int) bool { return s[j].Domain != s[i].Domain })
+	})
+}
+
+func vc_MariadbGTIDSet_ContainsGTID_requires(gtidSet MariadbGTIDSet, other GTID) bool { return true }
+
+// containment compares sequence numbers within the GTID's domain: true exactly if an entry of that domain (the
+// first one; in a well-formed set the only one) has reached the sequence number
+func vc_MariadbGTIDSet_ContainsGTID_loop1_inv(rangeindex int, gtidSet MariadbGTIDSet, mdbOther MariadbGTID) bool {
+	return rangeindex >= -1 && rangeindex < len(gtidSet) &&
+		vspec.Forall(0, rangeindex+1, func(k int) bool { return gtidSet[k].Domain != mdbOther.Domain })
+}
+
+func vc_MariadbGTIDSet_ContainsGTID_ensures_domain(gtidSet MariadbGTIDSet, other GTID, res bool, rangeindex int, mdbOther MariadbGTID) bool {
+	i := rangeindex
+	if i >= 0 && i < len(gtidSet) && gtidSet[i].Domain == mdbOther.Domain {
+		return res == (gtidSet[i].Sequence >= mdbOther.Sequence) &&
+			vspec.Forall(0, i, func(k int) bool { return gtidSet[k].Domain != mdbOther.Domain })
+	}
+	return !res && vspec.Forall(0, len(gtidSet), func(k int) bool { return gtidSet[k].Domain != mdbOther.Domain })
+}
+
+// ---- AddGTID: the result holds the greater position for the GTID's domain, every other entry unchanged, and the
+// receiver's memory is not written (frame obligations) ----
+
+func vc_MariadbGTIDSet_AddGTID_requires(gtidSet MariadbGTIDSet, other GTID) bool {
+	return specMariaWellFormed(gtidSet)
+}
+
+func vc_MariadbGTIDSet_AddGTID_loop1_inv(rangeindex int, gtidSet MariadbGTIDSet, mdbOther MariadbGTID) bool {
+	return rangeindex >= -1 && rangeindex < len(gtidSet) &&
+		vspec.Forall(0, rangeindex+1, func(k int) bool { return gtidSet[k].Domain != mdbOther.Domain })
+}
+
+func vc_MariadbGTIDSet_AddGTID_ensures_result(gtidSet MariadbGTIDSet, other GTID, out GTIDSet, rangeindex int, mdbOther MariadbGTID) bool {
+	r, ok := out.(MariadbGTIDSet)
+	if !ok {
+		return false
+	}
+	i := rangeindex
+	if i >= 0 && i < len(gtidSet) && gtidSet[i].Domain == mdbOther.Domain {
+		// the domain was present at index i: same length, entry i is the greater of the two, the rest unchanged
+		return len(r) == len(gtidSet) &&
+			r[i].Domain == mdbOther.Domain &&
+			(mdbOther.Sequence > gtidSet[i].Sequence || r[i] == gtidSet[i]) &&
+			(mdbOther.Sequence <= gtidSet[i].Sequence || r[i] == mdbOther) &&
+			vspec.Forall(0, len(gtidSet), func(k int) bool { return k == i || r[k] == gtidSet[k] })
+	}
+	// a new domain: appended
+	return len(r) == len(gtidSet)+1 && r[len(gtidSet)] == mdbOther &&
+		vspec.Forall(0, len(gtidSet), func(k int) bool { return r[k] == gtidSet[k] })
+}
+
+// ---- MySQL 5.6 intervals ----
+
+func vc_interval_contains_requires(iv interval, other interval) bool { return true }
+func vc_interval_contains_ensures_def(iv interval, other interval, res bool) bool {
+	return res == (iv.start <= other.start && other.end <= iv.end)
+}
